@@ -144,6 +144,22 @@ def check_tiny(tree_json, zoneset):
     return check_sheet(sheet, 'moi', _ZONESETS[zoneset])
 
 
+def check_string(quote, pieces, place):
+    """one stylesheet of the systematic string family: the literal `quote + pieces + quote` at `place`, compact layout,
+    every position, all three functions"""
+    alpha = G.string_alphabet(quote)
+    sheet = G.render(G.string_tree(quote, ''.join(alpha[k] for k in pieces), place))
+    return check_sheet(sheet, 'moi', _ZONESETS['all'])
+
+
+def _strings(maxlen_main, maxlen_other):
+    for place in sorted(G.STRING_PLACES):
+        maxlen = maxlen_main if place in ('value', 'attr') else maxlen_other
+        for q in G.QUOTES:
+            for ix, _txt in G.string_bodies(q, maxlen):
+                yield (q, ix, place)
+
+
 def _tiny(nmax):
     for n in range(1, nmax + 1):
         for f in G.tiny_forests(n):
@@ -196,6 +212,20 @@ def run(tier, seed):
         probe = rnd(name + '-probe', feats, zoneset, PROBE_COUNT, PROBE_SIZE, what + ' [fixed probe family]', PROBE_SEED)
         if not probe.violations:
             rnd(name, feats, zoneset, ntrees if not feats else nsmall, size, what, seed)
+
+    # String literals whose body holds the other kind of quote, escaped quotes, delimiters (notes/C10.md, "Strings").
+    rnd('css-string-quotes', 'Q', 'all', 150 if quick else 1500, size,
+        'string literals with generated bodies (other kind of quote, escaped quotes / backslashes, `{ } ; :`, parentheses, '
+        'comment markers) as value tokens, inside url()/fn()/maps, in attribute selectors and at-rule arguments; all zones', seed)
+    lmain, lother = (3, 2) if quick else (4, 3)
+    c = Clause('css-string-exhaustive', 'B',
+               generator='`<sel>{b:<value>;c:d;e{f:g;}}h{i:j;}` (compact) with one string literal: either quote kind, body = every '
+                         'sequence over [other quote, `{`, `}`, `;`, `:`, escaped own quote, `x`]; places %r' % sorted(G.STRING_PLACES),
+               bound='bodies of 1..%d pieces at places value / attr, 1..%d pieces elsewhere; every position 0..len(doc), all zones' % (lmain, lother),
+               rule='a case is one stylesheet; distinct by (quote, piece indices, place)', exhaustive=True)
+    run_parallel(c, 'bounded.c10', 'check_string', _strings(lmain, lother), chunk=100)
+    c.done()
+    out.append(c)
 
     nmax = 4 if quick else 5
     c = Clause('css-tiny-exhaustive', 'B',
